@@ -26,7 +26,7 @@ func (a *Analyzer) doCall(fr *frame, call *ssa.Call, mem *Memory) []result {
 		args[i] = a.val(fr, x)
 	}
 	if common.IsInvoke() {
-		a.undecide(call, "interface method call %s is not modelled", common.Method.Name())
+		a.unmodelled(call, "interface method call (havoc)", "interface method call %s is not modelled", common.Method.Name())
 		a.havoc(call, args, mem)
 		return one(topValue(call.Type(), a.sizes))
 	}
@@ -35,7 +35,7 @@ func (a *Analyzer) doCall(fr *frame, call *ssa.Call, mem *Memory) []result {
 	if fn == nil {
 		f, ok := a.val(fr, common.Value).(*Fn)
 		if !ok {
-			a.undecide(call, "call through an unknown function value")
+			a.unmodelled(call, "call through a function value (havoc)", "call through an unknown function value")
 			a.havoc(call, args, mem)
 			return one(topValue(call.Type(), a.sizes))
 		}
@@ -64,8 +64,8 @@ func (a *Analyzer) doCall(fr *frame, call *ssa.Call, mem *Memory) []result {
 		isModule = anon.Pkg != nil && load.IsModule(anon.Pkg.Pkg)
 	}
 	switch {
-	case !isModule:
-		a.undecide(call, "call of %s is not modelled", name)
+	case !isModule || (a.InScope != nil && !a.InScope(fn)):
+		a.unmodelled(call, "call leaving the analysed scope (havoc)", "call of %s is not modelled", name)
 	case len(fn.Blocks) == 0:
 		a.undecide(call, "%s has no Go body (assembly): not modelled", load.FuncName(fn))
 	case fr.depth+1 > a.MaxDepth:
@@ -89,21 +89,45 @@ func indexIn(instr ssa.Instruction) int {
 }
 
 // havoc forgets everything reachable through pointer and slice arguments of
-// a call that is not interpreted.
+// a call that is not interpreted.  In Stage B the objects escape: their
+// contents are published to the by-type summaries (the callee can only
+// change field elements through the exported functions of the analysed
+// scope, which maintain those summaries) and replaced by them.
 func (a *Analyzer) havoc(call *ssa.Call, args []Value, mem *Memory) {
 	for i, v := range args {
 		t := call.Common().Args[i].Type()
+		if a.heap != nil {
+			a.escape(v, mem)
+		}
 		switch x := v.(type) {
 		case *Ptr:
 			if pt, ok := t.Underlying().(*types.Pointer); ok && x.tracked() {
-				mem.store(x, topValue(pt.Elem(), a.sizes))
+				if a.heap != nil {
+					mem.store(x, a.heap.summaryValue(pt.Elem(), keyAt(a.objType[x.Obj], x.Path)))
+				} else {
+					mem.store(x, topValue(pt.Elem(), a.sizes))
+				}
 			}
 		case *Slice:
 			if st, ok := t.Underlying().(*types.Slice); ok && x.Arr != nil && x.Arr.tracked() {
-				mem.store(x.Arr.sub(-1), topValue(st.Elem(), a.sizes))
+				if a.heap != nil {
+					mem.store(x.Arr.sub(-1), a.heap.summaryValue(st.Elem(), keyAt(a.objType[x.Arr.Obj], x.Arr.Path)))
+				} else {
+					mem.store(x.Arr.sub(-1), topValue(st.Elem(), a.sizes))
+				}
 			}
 		}
 	}
+}
+
+// unmodelled handles a call that is not interpreted: a failure in Stage A,
+// a counted havoc in Stage B.
+func (a *Analyzer) unmodelled(call *ssa.Call, what, format string, args ...any) {
+	if a.ExternalHavoc {
+		a.notes[what]++
+		return
+	}
+	a.undecide(call, format, args...)
 }
 
 // builtin models the Go builtins that occur in limb code.
